@@ -4,6 +4,8 @@ package json
 
 import (
 	"bytes"
+	"math"
+	"strconv"
 	"unicode/utf8"
 
 	"github.com/ozanh/ugo"
@@ -679,4 +681,97 @@ func VerifC19JSON() {
 	_, f := ugo.VerifModuleCallable(Module, verifrt.Param("idx"))
 	verifrt.Assume(f != nil)
 	ugo.VerifCallTotal(f, verifrt.Param("nargs"), verifrt.Param("kinds"))
+}
+
+// ---------------------------------------------------------------------------
+// K7: numbers, byte for byte
+
+// refNumber: the bytes encoding/json writes for a number: integers in
+// decimal, floats by the ES6 number-to-string rule ('e' form below 1e-6 and
+// from 1e21 on, exponent without padding), NaN and infinities unsupported.
+func refNumber(v ugo.Object) ([]byte, bool) {
+	switch x := v.(type) {
+	case ugo.Int:
+		return strconv.AppendInt(nil, int64(x), 10), true
+	case ugo.Uint:
+		return strconv.AppendUint(nil, uint64(x), 10), true
+	case ugo.Char:
+		return strconv.AppendInt(nil, int64(x), 10), true
+	case ugo.Float:
+		f := float64(x)
+		if f != f || f > math.MaxFloat64 || f < -math.MaxFloat64 {
+			return nil, false
+		}
+		a := f
+		if a < 0 {
+			a = -a
+		}
+		verb := byte('f')
+		if a != 0 && (a < 1e-6 || a >= 1e21) {
+			verb = 'e'
+		}
+		b := strconv.AppendFloat(nil, f, verb, -1, 64)
+		if n := len(b); verb == 'e' && n >= 4 && b[n-4] == 'e' && b[n-3] == '-' && b[n-2] == '0' {
+			b = append(b[:n-2], b[n-1])
+		}
+		return b, true
+	}
+	return nil, false
+}
+
+var verifNumberPool = [...]float64{0, 1e-7, 1e-6, 9.99e-7, 1.5e-9, 1e-10, 1e21, 9.999e20, 1e22, -1e21, -1e-7, 123456789, 0.1, -2.5e-8, 1e100, 5e-324}
+
+// VerifC17Number: Marshal writes a number exactly as encoding/json does, for
+// every int, uint, char and float (symbolic at full width: the engine's
+// rendering of a symbolic number carries verb, precision, bit size, base and
+// signedness, so two renderings are equal exactly when strconv was asked the
+// same question about the same value) and for concrete floats around the
+// notation boundaries (real strconv output incl. the exponent clean-up);
+// alone, quoted through EncoderOptions, and inside containers.
+func VerifC17Number() {
+	var v ugo.Object
+	switch verifrt.Choice("k", 5) {
+	case 0:
+		v = ugo.Int(verifrt.Int64("i"))
+	case 1:
+		v = ugo.Uint(verifrt.Uint64("u"))
+	case 2:
+		v = ugo.Char(verifrt.Int32("c"))
+	case 3:
+		v = ugo.Float(verifrt.Float64Bits("f"))
+	default:
+		f := verifNumberPool[verifrt.Choice("p", len(verifNumberPool))]
+		if verifrt.Bool("neg") {
+			f = -f
+		}
+		v = ugo.Float(f)
+	}
+	num, ok := refNumber(v)
+	var in ugo.Object
+	var want []byte
+	switch verifrt.Param("shape") {
+	case 0:
+		in, want = v, num
+	case 1:
+		in = &EncoderOptions{Value: v, Quote: true}
+		want = append(append([]byte{'"'}, num...), '"')
+	case 2:
+		in = ugo.Array{v, ugo.Undefined}
+		want = append(append([]byte{'['}, num...), []byte(",null]")...)
+	default:
+		in = ugo.Map{"n": v}
+		want = append(append([]byte(`{"n":`), num...), '}')
+	}
+	var out []byte
+	var err error
+	verifrt.NoPanic("marshal-no-panic", func() { out, err = Marshal(in) })
+	if !ok {
+		verifrt.Assert(err != nil, "nan-and-infinities-are-errors")
+	} else {
+		verifrt.Assert(err == nil, "finite-number-marshals")
+		if err == nil {
+			verifrt.AssertMsg(bytes.Equal(out, want), "number-bytes-as-encoding-json", string(out)+" want "+string(want))
+		}
+	}
+	verifrt.Reached("end")
 }
